@@ -16,7 +16,7 @@ import z3
 from ..fpbits.claims import _task as bits_task
 from ..fxsym import interp as ix
 from ..fxsym.capture import capture
-from ..fxsym.programs import build, qprograms, spec_name
+from ..fxsym.programs import build, qprograms, root_specs, spec_name
 from ..par import run_tasks
 from ..report import CONCRETE, INCONCLUSIVE, Report, describe_function
 from ..sym.runner import discharge
@@ -362,11 +362,124 @@ def task_program(spec: Any, fkey: str, timeout: float) -> List[Dict[str, Any]]:
             recs.append({"type": "violation", "key": f"C15/{name}/runs-without-error",
                          "what": f"simulate_format[{fkey}]({spec_name(spec)}) fails on the real TorchDynamo path: {cap.error[:300]}",
                          "replay": {"info": {"spec": _plain(spec), "formats": fkey}, "obligation": "run", "model": {}}})
+        elif cap.graphs == 0 and FORMATS[fkey][0][:2] != (8, 23):
+            from .c16 import _never_transformed
+            recs += _never_transformed("C15", name, spec, _transform(fkey), {"spec": _plain(spec), "formats": fkey})
         else:
             recs.append({"type": "obligation", "name": f"{name}/capture", "status": INCONCLUSIVE, "queries": 0, "detail": f"{cap.graphs} graphs"})
         return recs
     recs.append({"type": "obligation", "name": f"{name}/runs on the real TorchDynamo path", "status": CONCRETE, "queries": 0, "kind": "concrete", "detail": "ok"})
     recs += discharge("C15", name, harness(spec, cap, fkey), replay_graph, timeout, base_info={"spec": _plain(spec), "formats": fkey}, skip_definedness=True)
+    return recs
+
+
+# ---------------------------------------------------------------------------------------------- (b) hand-built FX graphs
+def handbuilt_variants() -> Dict[str, Any]:
+    """call forms of the four quantised ops as they can appear in an FX graph (unit-scaled functions stay graph nodes only in
+    hand-built graphs, after unit_scale(), or when allowed in graph): positional / keyword / omitted optional arguments"""
+    import unit_scaling.functional as U
+    L, A = U.linear, U.scaled_dot_product_attention
+    FL, FA = F.linear, F.scaled_dot_product_attention
+    return {
+        "F.linear(x,w)": (FL, ("x", "w"), {}), "F.linear(x,w,b)": (FL, ("x", "w", "b"), {}), "F.linear(x,w,bias=b)": (FL, ("x", "w"), {"bias": "b"}),
+        "U.linear(x,w,b)": (L, ("x", "w", "b"), {}), "U.linear(x,w,b,None)": (L, ("x", "w", "b", None), {}), "U.linear(x,w,b,'gmean')": (L, ("x", "w", "b", "gmean"), {}),
+        "U.linear(x,w,None,None)": (L, ("x", "w", None, None), {}), "U.linear(x,w,b,constraint=None)": (L, ("x", "w", "b"), {"constraint": None}),
+        "U.linear(x,w,bias=b,constraint='hmean')": (L, ("x", "w"), {"bias": "b", "constraint": "hmean"}), "U.linear(x,w)": (L, ("x", "w"), {}),
+        "U.linear(x,w,b,'to_grad_input_scale')": (L, ("x", "w", "b", "to_grad_input_scale"), {}),
+        "F.sdpa(q,k,v)": (FA, ("q", "k", "v"), {}), "F.sdpa(q,k,v,mask)": (FA, ("q", "k", "v", "mask"), {}), "F.sdpa(q,k,v,attn_mask=mask)": (FA, ("q", "k", "v"), {"attn_mask": "mask"}),
+        "F.sdpa(q,k,v,None,0.0,True)": (FA, ("q", "k", "v", None, 0.0, True), {}), "F.sdpa(q,k,v,is_causal=True)": (FA, ("q", "k", "v"), {"is_causal": True}),
+        "U.sdpa(q,k,v)": (A, ("q", "k", "v"), {}), "U.sdpa(q,k,v,mult=2.0,is_causal=True)": (A, ("q", "k", "v"), {"mult": 2.0, "is_causal": True}),
+        "U.sdpa(q,k,v,mask)": (A, ("q", "k", "v", "mask"), {}), "U.sdpa(q,k,v,None,0.0,False,2.0)": (A, ("q", "k", "v", None, 0.0, False, 2.0), {}),
+    }
+
+
+def build_handbuilt(variant: str) -> Any:
+    import torch.fx as fx
+    from ..fxsym.programs import SIZES
+    fn, args, kwargs = handbuilt_variants()[variant]
+    g = fx.Graph()
+    B, S, d0, d1 = SIZES["B"], SIZES["S"], SIZES["d0"], SIZES["d1"]
+    shapes = {"x": (B, S, d0), "w": (d1, d0), "b": (d1,), "q": (B, S, d0), "k": (B, S, d0), "v": (B, S, d0), "mask": (S, S)}
+    needed = [a for a in list(args) + list(kwargs.values()) if isinstance(a, str) and a in shapes]
+    ph = {n: g.placeholder(n) for n in dict.fromkeys(needed)}
+    node = g.call_function(fn, tuple(ph.get(a, a) if isinstance(a, str) and a in shapes else a for a in args),
+                           {k: (ph[v] if isinstance(v, str) and v in shapes else v) for k, v in kwargs.items()})
+    post = g.call_function(torch.tanh, (node,))
+    g.output((post,))
+    gm = fx.GraphModule(torch.nn.Module(), g)
+    gen = torch.Generator().manual_seed(0)
+    ex = [(torch.tril(torch.ones(S, S, dtype=torch.bool)) if n == "mask" else torch.randn(shapes[n], generator=gen)) for n in ph]
+    return gm, ex
+
+
+class _HandCap:
+    def __init__(self, variant: str, fkey: str):
+        import copy as _copy
+        import torch.fx as fx
+        from unit_scaling.transforms._simulate_format import _quantisation_backend
+        gm, ex = build_handbuilt(variant)
+        self.original = fx.GraphModule(gm, _copy.deepcopy(gm.graph))
+        self.example_inputs = ex
+        self.stages: List[Any] = []
+        self.error: Optional[str] = None
+        self.rewritten = None
+        try:
+            f, b = FORMATS[fkey]
+            self.rewritten = _quantisation_backend(mkfmt(f), mkfmt(b))(gm, ex)
+        except Exception as e:
+            self.error = f"{type(e).__name__}: {e}"
+
+
+def concrete_handbuilt(variant: str, fkey: str) -> Tuple[bool, str]:
+    cap = _HandCap(variant, fkey)
+    if cap.error:
+        return True, f"_quantisation_backend on a hand-built graph with {variant} raised {cap.error}"
+    phs = [n for n in cap.original.graph.nodes if n.op == "placeholder"]
+    orig_randint = torch.randint
+
+    def pinned(*a: Any, **k: Any) -> torch.Tensor:
+        return orig_randint(*a, generator=torch.Generator().manual_seed(1234), **k)
+
+    def run(fn: Any) -> Tuple[Any, List[Any]]:
+        lv = {str(n.target): (ex.detach().clone().requires_grad_(True) if ex.is_floating_point() else ex.clone()) for n, ex in zip(phs, cap.example_inputs)}
+        torch.randint = pinned  # type: ignore[assignment]
+        try:
+            out = fn(lv)
+            out = out[0] if isinstance(out, (tuple, list)) else out
+            fl = [v for v in lv.values() if v.is_floating_point()]
+            gs = torch.autograd.grad(out, fl, torch.ones_like(out), allow_unused=True)
+        finally:
+            torch.randint = orig_randint  # type: ignore[assignment]
+        return out, list(gs)
+
+    try:
+        o1, g1 = run(lambda lv: cap.rewritten(*[lv[str(n.target)] for n in phs]))
+    except Exception as e:
+        return True, f"quantised hand-built graph with {variant} raised {type(e).__name__}: {str(e)[:200]}"
+    o2, g2 = run(lambda lv: run_quant_reference(cap.original, lv, fkey))
+    bad = []
+    if not torch.equal(o1, o2):
+        bad.append("outputs differ")
+    for i, (a, b) in enumerate(zip(g1, g2)):
+        if (a is None) != (b is None) or (a is not None and not torch.equal(a, b)):
+            bad.append(f"gradient #{i} differs")
+    return bool(bad), f"hand-built {variant} @ {fkey}: " + "; ".join(bad or ["bit-identical to the reference"])
+
+
+def task_handbuilt(variant: str, fkey: str, timeout: float) -> List[Dict[str, Any]]:
+    torch.set_num_threads(1)
+    name = f"handbuilt[{variant}]@{fkey}"
+    cap = _HandCap(variant, fkey)
+    recs: List[Dict[str, Any]] = [{"type": "programs", "n": 1}]
+    if cap.error:
+        return recs + [{"type": "violation", "key": f"C15/{name}/runs-without-error", "what": f"_quantisation_backend on a hand-built FX graph with {variant} raised {cap.error}",
+                        "replay": {"info": {"handbuilt": variant, "formats": fkey}, "obligation": "run", "model": {}}}]
+    spec = (((variant, ()),), None, False)
+
+    def rp(ob: str, model: Dict[str, Any], info: Any) -> Tuple[bool, str]:
+        return concrete_handbuilt(variant, fkey)
+
+    recs += discharge("C15", name, harness(spec, cap, fkey), rp, timeout, base_info={"handbuilt": variant, "formats": fkey}, skip_definedness=True)
     return recs
 
 
@@ -401,13 +514,16 @@ def run(rep: Report, only: str = "") -> None:
     for claim in ("fixed", "no_error", "shape_dtype", "unmodified"):
         tasks.append((bits_task, (8, 23, "nearest", 0, claim, 300)))
         tasks.append((bits_task, (8, 23, "stochastic", 0, claim, 300)))
-    specs = qprograms(rep.tier)
+    specs = qprograms(rep.tier) + root_specs()
     for sp in specs:
         for fkey in FORMATS:
             if fkey.startswith("us+") and any(k.startswith(("ulin", "uattn")) for k, _ in sp[0]):
                 continue  # unit_scale() of a module that already calls unit-scaled functions is outside the property
             if thorough or fkey in ("fp8", "mixed", "us+mixed") or (sum(map(ord, spec_name(sp))) % 3 == 0):
                 tasks.append((task_program, (sp, fkey, timeout)))
+    for variant in handbuilt_variants():
+        for fkey in (("fp8", "mixed", "lossless", "fp8-nearest") if thorough else ("mixed", "lossless")):
+            tasks.append((task_handbuilt, (variant, fkey, timeout)))
     tasks.append((task_fp8_instance, ()))
     if only:
         tasks = [t for t in tasks if only in repr(t[1]) or (t[0] is task_program and only in spec_name(t[1][0]))]
@@ -436,6 +552,13 @@ def replay(data: Dict[str, Any]) -> Tuple[bool, str]:
         return replay_ste_sequence(data["obligation"], data["model"], info)
     if "which" in info:
         return replay_ste(data["obligation"], data["model"], info)
+    if "handbuilt" in info:
+        return concrete_handbuilt(info["handbuilt"], info["formats"])
+    if info.get("never"):
+        from .c16 import _never_transformed
+        r = _never_transformed("C15", "replay", _unplain(info["spec"]), _transform(info["formats"]), info)
+        v = [x for x in r if x.get("type") == "violation"]
+        return bool(v), str([x["what"] for x in v] or "transform applied")
     if "spec" in info:
         return concrete_compare(_unplain(info["spec"]), info["formats"])
     from ..fpbits.claims import concrete_eval
